@@ -153,12 +153,17 @@ pub fn catch<T>(f: impl FnOnce() -> T) -> Result<T, String> {
     let r = std::panic::catch_unwind(std::panic::AssertUnwindSafe(f));
     IN_CATCH.with(|c| c.set(prev));
     r.map_err(|e| {
-        if let Some(s) = e.downcast_ref::<&str>() {
+        let msg = if let Some(s) = e.downcast_ref::<&str>() {
             s.to_string()
         } else if let Some(s) = e.downcast_ref::<String>() {
             s.clone()
         } else {
             "panic".to_string()
+        };
+        // the location recorded by the panic hook (when `silence_panics` installed it)
+        match LAST_PANIC_LOC.with(|l| l.borrow_mut().take()) {
+            Some(loc) => format!("{} @ {}", msg.replace('\n', " "), loc),
+            None => msg,
         }
     })
 }
@@ -169,11 +174,15 @@ pub fn silence_panics() {
     std::panic::set_hook(Box::new(|info| {
         if !IN_CATCH.with(|c| c.get()) {
             eprintln!("harness panic: {}", info);
+        } else if let Some(l) = info.location() {
+            let file = l.file().rsplit("/src/").next().unwrap_or(l.file()).to_string();
+            LAST_PANIC_LOC.with(|c| *c.borrow_mut() = Some(format!("{}:{}", file, l.line())));
         }
     }));
 }
 
 thread_local! {
+    pub static LAST_PANIC_LOC: std::cell::RefCell<Option<String>> = const { std::cell::RefCell::new(None) };
     pub static IN_CATCH: std::cell::Cell<bool> = const { std::cell::Cell::new(false) };
 }
 
